@@ -89,13 +89,24 @@ def run(res, prop, props_v, monitor, quick_n=(110, 36), thorough_n=(1500, 60), r
         pr = vlib.coq_check_props("Props/C16.v", runners=["Run/BrokerScript.v"])
         pr = dict(pr, ok=True) if pr.get("runners_ok") else pr
     else:
+        more = []
+        if isinstance(props_v, (list, tuple)):
+            props_v, more = props_v[0], list(props_v[1:])
         pr = vlib.coq_check_props(props_v, runners=["Run/BrokerScript.v"])
         res.add_proof(pr, CHECKER_TMPL % (prop, prop))
+        for pv in more:
+            # further property files of the same property (theorems over whole histories)
+            pr2 = vlib.coq_check_props(pv)
+            res.add_proof(pr2, CHECKER_TMPL % (prop, prop) + " && coqc -Q /verif/coq GMQ " + pv)
+            if pr["ok"] and not pr2["ok"]:
+                pr["ok"], pr["failed_file"], pr["error"] = False, pr2.get("failed_file"), pr2.get("error", "")
         if res.tier == "thorough" and pr["ok"]:
             # forbidden-word grep over the cone of the property file and an independent re-check of the compiled
             # files (coqchk), which also lists the axioms they rely on
             import stores_lib
             probs = stores_lib.thorough_extras(res, props_v)
+            for pv in more:
+                probs = (probs or []) + (stores_lib.thorough_extras(res, pv) or [])
             if probs:
                 pr["ok"], pr["failed_file"], pr["error"] = False, props_v, "; ".join(probs)
     res.cov["trusted_base"] = vlib.TRUSTED_BASE_COMMON + TRUSTED_BROKER
